@@ -13,7 +13,7 @@ from vizier._src.service import vizier_service_pb2 as vs
 
 SERVICE_ALGOS = {'grid': 'GRID_SEARCH', 'sgrid': 'SHUFFLED_GRID_SEARCH', 'quasi': 'QUASI_RANDOM_SEARCH',
                  'eagle': 'EAGLE_STRATEGY', 'nsga2': 'NSGA2', 'cmaes': 'CMA_ES'}
-SERVICE_SPACE = {'int10': 'int10', 'mixed': 'mixed', 'f2': 'f2', 'small': None, 'f3log': None, 'cat2': None}
+SERVICE_SPACE = {'int10': 'int10', 'mixed': 'mixed', 'f2': 'f2', 'small': None, 'f3log': None, 'cat2': None, 'sibA': None, 'sibB': None}
 
 
 class C13(runner.Check):
